@@ -42,7 +42,10 @@ TRUSTED = ['np.linalg.lstsq returns a solution of the normal equations of the ma
 UNPROVEN = ['higher-order DispersiveTilt trace/dispersion (scipy.optimize.leastsq, scipy.integrate.quad): oracle residual checks only',
             'lstsq solves the normal equations: contract, checked numerically',
             'tilt-list sharing between products (aliasing) and Plane.copy in fit_tilt(inplace=False): correspondence + oracle']
-ASSUMPTIONS = ['higher-order DispersiveTilt is generated for length scales >= 1e-6 only: scipy.optimize.leastsq(x0=0) does not move at all when every '
+ASSUMPTIONS = ['planes with > 2**18 samples are generated for length scales >= 1e-6 only: with pixel scales ~1e-11 m and ~1e5 samples the tip column '
+               'of the unscaled basis [1, r*px, -c*px] falls below np.linalg.lstsq\'s rank cutoff (eps*N) and is dropped (recorded tilt 0): a unit-dependence of '
+               'the solver call, reported as an observation',
+               'higher-order DispersiveTilt is generated for length scales >= 1e-6 only: scipy.optimize.leastsq(x0=0) does not move at all when every '
                'length is ~1e-16 (a scale dependence of the numerical root finding, physically irrelevant; first-order elements are exact at all scales)',
                'binary masks, pairwise disjoint segments; least-squares uniqueness checked only when a segment has 3 non-collinear pixels',
                'generated tilt shifts keep a fractional part in [0.05,0.95] so that np.fix is insensitive to rounding']
@@ -206,7 +209,7 @@ def generate(rng, tier):
     for k in range({'quick': 10, 'thorough': 120, 'search': 120}[tier]):
         t = k % 10 if tier != 'search' else k % 20
         ks = float(rng.choice(SCALES))
-        if t in (9, 19) and (tier != 'search' or t == 9): one(lambda: _gen_fit_big(rng), ks if tier != 'quick' else 1.0)
+        if t in (9, 19) and (tier != 'search' or t == 9): one(lambda: _gen_fit_big(rng), max(ks, 1e-6) if tier != 'quick' else 1.0)
         elif t in (8, 18): one(lambda: _gen_shift(rng, nmax=48, allow_high=False), ks)
         elif t % 4 == 0: one(lambda: _gen_shift(rng, allow_high=(ks >= 1e-6)), ks)
         elif t % 4 == 1: one(lambda: _gen_fit(rng), ks)
